@@ -380,6 +380,23 @@ func replayNames(args []string) error {
 						"expected": map[string]bool{"host": want[0], "srv": want[1], "dom": want[2]}, "observed": obs})
 			}
 		}
+		// ACE wrapping: one label of the canonical text behind an ACE prefix, once
+		// ("xn--<label>-" converts back to the label) and nested ("xn--xn--<label>--"
+		// converts to "xn--<label>-": idna.ToASCII is not idempotent).  The reference
+		// (idna.ToASCII + grammar) decides.
+		if len(canon) > 0 && len(canon) <= 260 {
+			for _, s := range ACEWraps(canon, rngs[w]) {
+				nconc.Add(1)
+				naltered.Add(1)
+				t, failed, want := Expected(s)
+				resv[w].Add(Entry{S: s, Want: want}, rngs[w])
+				if fn, what, obs := CheckOne(s, want); fn != "" {
+					res.Mismatch(fmt.Sprintf("%s(%s)", fn, shortQ(s)), what+" [G names, ACE-wrapped label]",
+						map[string]any{"input": s, "input_go": strconv.Quote(s), "abstract": v.R, "toASCII": t, "toASCIIFailed": failed,
+							"expected": map[string]bool{"host": want[0], "srv": want[1], "dom": want[2]}, "observed": obs})
+				}
+			}
+		}
 		return nil
 	})
 	if err != nil {
